@@ -658,6 +658,22 @@ func (r *Run) evalCall(env *SpecEnv, x ECall) SV {
 			}
 		}
 		return SV{t: store(a.t, i.t, v.t), T: a.T}
+	case "sprintf":
+		// sprintf(format, args...): the same uninterpreted function the executor uses for fmt.Sprintf
+		f := r.eval(env, x.Args[0])
+		ts := []Term{f.t}
+		sorts := []string{"Str"}
+		for _, a := range x.Args[1:] {
+			v := r.eval(env, a)
+			if isUntyped(v.T) {
+				specFail("sprintf() arguments must be typed")
+			}
+			ts = append(ts, r.makeIface(v.T, v.t))
+			sorts = append(sorts, "Iface")
+		}
+		n := fmt.Sprintf("sprintf_%d", len(x.Args)-1)
+		u.ufunc(n, sorts, "Str")
+		return SV{t: app("Str", n, ts...), T: types.Typ[types.String]}
 	case "addr":
 		// addr(p.f.g): the identity of an interior location (see locAsTerm)
 		loc := r.evalLoc(env, x.Args[0])
